@@ -428,6 +428,7 @@ def rule_pp_contract(ctx, px):
         r = path.stmts[-1]
         n_ret += 1
         terms = pyfront.guard_terms(path.conds)
+        terms += [x for x in pyfront.guard_terms([(pyfront.subst_locals(t.node, t_), p_) for t_, p_ in path.conds]) if x not in terms]
         v = r.value
         txt = ast.unparse(v) if v is not None else "None"
         label = f"{t.short} :: path to `return {txt[:50]}` under {[(e[:30], pl) for e, pl in terms]}"
@@ -507,7 +508,7 @@ def rule_pp_contract(ctx, px):
             if isinstance(st, ast.If):
                 test, pol = conds[ci]
                 ci += 1
-                for e, pl in pyfront.guard_terms([(test, pol)]):
+                for e, pl in pyfront.guard_terms([(pyfront.subst_locals(le.node, test), pol)]):
                     k = _emptiness(e, pl, line_alias)
                     if k is not None:
                         kind = k if kind in (None, k) else "contradiction"
